@@ -280,6 +280,23 @@ impl Ctx {
                     s.expected_products.insert(0, in_toto::models::rule::ArtifactRule::Disallow("*".into()));
                 }
             }
+            // the first MATCH rule gains a source clause whose prefix is the empty string
+            "match_in_empty" => {
+                let mut done = false;
+                for st in steps.iter_mut() {
+                    for r in st.expected_materials.iter_mut().chain(st.expected_products.iter_mut()) {
+                        if let in_toto::models::rule::ArtifactRule::Match { in_src, .. } = r {
+                            if !done && in_src.is_none() {
+                                *in_src = Some(String::new());
+                                done = true;
+                            }
+                        }
+                    }
+                }
+                if !done {
+                    b = b.readme("variant match_in_empty".to_string());
+                }
+            }
             "keys_add" => extra_key = Some("kx"),
             "readme" => b = b.readme("readme (as signed)".to_string()),
             "expires" => b = b.expires(expires + Duration::seconds(1)),
@@ -354,7 +371,8 @@ impl Ctx {
         let edit = d["edit"].as_str().unwrap_or("none");
         // a "requote" edit ships the split form of what was signed in joined form
         let shipped = self.wrapper(d, if matches!(edit, "cmd_requote" | "cmd_respace" | "cmd_empty_arg") { "cmd_split" } else { "none" });
-        let mut signed_over = self.wrapper(d, edit);
+        // ("match_in_empty": the clause is in the shipped document, not in the signed one)
+        let mut signed_over = self.wrapper(d, if edit == "match_in_empty" { "none" } else { edit });
         // a layout whose text spells `expires` in another notation is signed the way its owner would
         // sign it with this library: parse the notated text, sign what was parsed
         let fmt = d["fmt"].as_str().unwrap_or("Z");
@@ -370,7 +388,7 @@ impl Ctx {
         // list-valued fields in the order the scenario gives them (the builders' own ordering must not matter)
         let shipped = self.via_text(d, shipped);
         let signed_over = self.via_text(d, signed_over);
-        if edit != "none" {
+        if edit != "none" && edit != "match_in_empty" {
             assert!(shipped != signed_over, "edit {edit} must change the content");
         }
         let mut sigs: Vec<Signature> = vec![];
@@ -414,6 +432,30 @@ impl Ctx {
             if fmt != "Z" {
                 let inst = instant_of(d["expires"].as_i64().unwrap());
                 val["signed"]["expires"] = json!(spell_instant(inst, fmt));
+            }
+        }
+        // "match_in_empty": the edit is made in the TEXT - the first MATCH rule without a source clause gets one
+        // whose prefix is the empty string
+        if edit == "match_in_empty" {
+            let mut done = false;
+            if let Some(steps) = val["signed"]["steps"].as_array_mut() {
+                for st in steps.iter_mut() {
+                    for side in ["expected_materials", "expected_products"] {
+                        if let Some(rules) = st[side].as_array_mut() {
+                            for r in rules.iter_mut() {
+                                let a = r.as_array_mut().unwrap();
+                                if !done && a.first() == Some(&json!("MATCH")) && a.get(2) != Some(&json!("IN")) {
+                                    a.insert(2, json!("IN"));
+                                    a.insert(3, json!(""));
+                                    done = true;
+                                }
+                            }
+                        }
+                    }
+                }
+            }
+            if !done {
+                val["signed"]["readme"] = json!("edited");
             }
         }
         serde_json::to_string_pretty(&val).unwrap()
